@@ -177,7 +177,17 @@ def other_state(draw, stt):
 @st.composite
 def tree_cases(draw):
     stt = draw(states())
-    return dict(state=stt, tree=draw(trees(stt, 7)))
+    c = dict(state=stt, tree=draw(trees(stt, 7)))
+    if draw(st.integers(0, 3)) == 0:
+        # the way a user writes it: a = VTR(...); b = ...; Or(Or(a, b), And(a, b)) - the same condition objects in two
+        # sibling compounds (compounds are tuples: And(a, b) == Or(a, b))
+        a = draw(leaves(stt)); b = draw(leaves(stt))
+        k1, k2 = draw(st.sampled_from([('Or', 'And'), ('And', 'Or'), ('Or', 'And'), ('And', 'And')]))
+        twin = [draw(st.sampled_from(['Or', 'And'])), [k1, a, b], [k2, a, b]]
+        if draw(st.booleans()):
+            twin = [draw(st.sampled_from(['Or', 'And'])), c['tree'], twin]
+        c['tree'] = twin; c['share'] = True
+    return c
 
 
 # --------------------------------------------------------------------------- the code under test
@@ -198,13 +208,20 @@ def build_state(stt):
     return s
 
 
-def build_cond(tree):
+def build_cond(tree, cache=None):
+    """cache: a dict -> leaves with the same specification are one and the same object"""
     import mystic.termination as T
     kind = tree[0]
     if kind == 'leaf':
+        key = repr(tree)
+        if cache is not None and key in cache:
+            return cache[key]
         kw = {k: (F(v) if not isinstance(v, (list, dict)) else v) for k, v in tree[2].items()}
-        return getattr(T, tree[1])(**kw)
-    subs = [build_cond(t) for t in tree[1:]]
+        c = getattr(T, tree[1])(**kw)
+        if cache is not None:
+            cache[key] = c
+        return c
+    subs = [build_cond(t, cache) for t in tree[1:]]
     if kind == 'And':
         return T.And(*subs)
     if kind == 'Or':
@@ -418,7 +435,8 @@ def run_tree(case, ctx):
     import mystic.termination as T
     stt = case['state']; tree = case['tree']
     s = build_state(stt)
-    cond = build_cond(tree)
+    cond = build_cond(tree, {} if case.get('share') else None)
+    if case.get('share'): ctx.label('condition-objects-shared-between-sibling-compounds')
     leafvals = []
     want = tree_truth(tree, stt, leafvals)
     got = cond(s)
